@@ -118,9 +118,84 @@ fn filter<'a>(i: &'a [u8]) -> (r: IResult<&'a [u8], Tag>) ensures denotes(r, i, 
     ensures denotes(r, i, d_extensible(i@)), //# C08.extensible_item_is_the_ordered_choice_of_its_two_forms
 //@end
 
-// TEMPORARY: eq as an assumed contract
-#[verifier::external_body]
-fn eq<'a>(i: &'a [u8]) -> (r: IResult<&'a [u8], Tag>) ensures denotes(r, i, d_eq(i@)) { unimplemented!() }
+//@lift name=eq file=src/filter.rs fn=eq
+//@ rules +R11
+//@ sub "fn eq(i: &[u8])" => "fn eq<'a>(i: &'a [u8])"
+//@ sub "IResult<&[u8], Tag>" => "IResult<&'a [u8], Tag>"
+//@ sub "v.iter().enumerate().fold(false, |acc, (n, ve)| {\n                acc || ve.is_empty() && n + 1 != v.len()\n            })" => "verif_any_empty_before_last(&v)"
+//@ sub "mid_final.into_iter().enumerate()" => "verif_enumerate(mid_final).into_iter()"
+//@ sub "let mut inner = vec![];" => "let mut inner: Vec<Tag> = vec![];"
+//@ ret r
+//@ closure at="|v: Vec<Vec<u8>>| -> Result<Vec<Vec<u8>>, ()>" params="v: Vec<Vec<u8>>" ret="(gr: core::result::Result<Vec<Vec<u8>>, ()>)"
+            ensures gr is Err <==> empty_before_last(vv(v@)), gr matches Ok(w) ==> w == v, //# C08.adjacent_asterisks_are_rejected_and_nothing_else
+//@ insert entry
+    let ghost i0 = i@;
+    proof { lemma_lits(); }
+//@ insert after "let (i, attr) ="
+    let ghost i1 = i@;
+    let ghost n = lx_attrdesc(i0)->0;
+//@ insert after "let (i, _) ="
+    let ghost i2 = i@;
+//@ insert after "let (i, initial) ="
+    let ghost i3 = i@;
+    let ghost d = lx_unescaped(i2)->0;
+    proof {
+        assert(i2 == i1.skip(1));
+        assert(i3 == i2.skip(d.0));
+        // what the anonymous element parser of many0 satisfies, and what follows for every result of many0 over it
+        assert(wit(den_star()));
+        assert forall|ii: &'a [u8], rr: IResult<&'a [u8], Seq<Vec<u8>>>| #[trigger] m0_res(den_star(), ii, rr) implies stars_rel(rr, ii, d_stars(ii@)) by { lemma_stars(ii, rr); }
+    }
+//@ insert after "    )(i)?;"
+    let ghost y = d_stars(i3)->0;
+    let ghost parts = y.1;
+    proof {
+        assert(vv(mid_final@) == parts);
+        assert(!empty_before_last(parts));
+        assert(i@ =~= i0.skip(n + 1 + d.0 + y.0));
+    }
+//@ insert before "let n = mid_final.len();"
+        proof {
+            if d.1.len() == 0 { assert(trees(inner@, inner@.len()) =~= Seq::<T>::empty()); }
+            else { tree_lemmas::lemma_trees1(inner@, 1); assert(trees(inner@, inner@.len()) =~= seq![t_ctx_p(0, d.1)]); }
+        }
+//@ insert after "let n = mid_final.len();"
+        let ghost pre = trees(inner@, inner@.len());
+        let ghost mut done = false;
+//@ loop 1 iter=it
+            invariant_except_break
+                !done,
+            invariant
+                n == parts.len(), it.seq().len() == n,
+                forall|j: int| 0 <= j < n ==> (#[trigger] it.seq()[j]).0 == j && it.seq()[j].1@ == parts[j],
+                !empty_before_last(parts),
+                !done ==> trees(inner@, inner@.len()) == pre + sub_pieces(parts, it.index@ as nat), //# C08.inv_substring_pieces_so_far_any_then_final
+                done ==> trees(inner@, inner@.len()) == pre + sub_pieces(parts, n as nat),
+            ensures
+                trees(inner@, inner@.len()) == pre + sub_pieces(parts, n as nat),
+//@ insert loop-start 1
+            let ghost old_inner = inner@;
+//@ insert before "break;"
+                proof {
+                    done = true;
+                    assert(parts[it.index@ as int].len() == 0);
+                    assert(it.index@ == n - 1);
+                    assert(sub_pieces(parts, n as nat) =~= sub_pieces(parts, (n - 1) as nat));
+                }
+//@ insert loop-end 1
+            proof { lemma_trees_push(old_inner, inner@[inner@.len() - 1]); }
+//@ insert before "Ok((i, tag))"
+    proof {
+        assert(attr@ == i0.take(n));
+        assert(mid_final@.len() == parts.len());
+        if parts.len() == 0 { tree_lemmas::lemma_trees2(tag->Sequence_0.inner@, 2); }
+        else if d.1.len() == 0 && parts.len() == 1 && parts[0].len() == 0 { assert(mid_final@[0]@ == parts[0]); }
+        else { assert(mid_final@[0]@ == parts[0]); assert(tag is Sequence); tree_lemmas::lemma_trees2(tag->Sequence_0.inner@, 2); }
+        assert(tree(tag) == eq_tree(i0.take(n), d.1, parts)); //# C08.equality_presence_substring_discrimination_and_initial_any_final_placement
+    }
+//@ spec
+    ensures denotes(r, i, d_eq(i@)), //# C08.equality_presence_and_substring_items_denote_rfc4515
+//@end
 
 //@lift name=item file=src/filter.rs fn=item
 //@ sub "fn item(i: &[u8])" => "fn item<'a>(i: &'a [u8])"
@@ -139,7 +214,7 @@ fn eq<'a>(i: &'a [u8]) -> (r: IResult<&'a [u8], Tag>) ensures denotes(r, i, d_eq
     proof { lemma_lits(); }
 //@ closure at="|tagv: Vec<Tag>| -> Tag" params="tagv: Vec<Tag>" ret="(t: Tag)"
         ensures tree(t) == t_ctx_c(0, trees(tagv@, tagv@.len())) //# C08.and_is_context_0_set_of_the_listed_filters
-//@ tail at="map(preceded("
+//@ tail whole
     proof {
         if d_and(i@) is Some { assert(i@.skip(1).skip((d_filterlist(i@.skip(1))->0).0) =~= i@.skip(1 + (d_filterlist(i@.skip(1))->0).0)); }
     }
@@ -156,7 +231,7 @@ fn eq<'a>(i: &'a [u8]) -> (r: IResult<&'a [u8], Tag>) ensures denotes(r, i, d_eq
     proof { lemma_lits(); }
 //@ closure at="|tagv: Vec<Tag>| -> Tag" params="tagv: Vec<Tag>" ret="(t: Tag)"
         ensures tree(t) == t_ctx_c(1, trees(tagv@, tagv@.len())) //# C08.or_is_context_1_set_of_the_listed_filters
-//@ tail at="map(preceded("
+//@ tail whole
     proof {
         if d_or(i@) is Some { assert(i@.skip(1).skip((d_filterlist(i@.skip(1))->0).0) =~= i@.skip(1 + (d_filterlist(i@.skip(1))->0).0)); }
     }
@@ -173,7 +248,7 @@ fn eq<'a>(i: &'a [u8]) -> (r: IResult<&'a [u8], Tag>) ensures denotes(r, i, d_eq
     proof { lemma_lits(); }
 //@ closure at="|tag: Tag| -> Tag" params="tag: Tag" ret="(t: Tag)"
         ensures tree(t) == t_ctx_c(2, seq![tree(tag)]) //# C08.not_is_context_2_wrapping_the_negated_filter
-//@ tail at="map(preceded("
+//@ tail whole
     proof {
         if d_not(i@) is Some { assert(i@.skip(1).skip((d_filter(i@.skip(1))->0).0) =~= i@.skip(1 + (d_filter(i@.skip(1))->0).0)); }
     }
@@ -185,7 +260,7 @@ fn eq<'a>(i: &'a [u8]) -> (r: IResult<&'a [u8], Tag>) ensures denotes(r, i, d_eq
 //@ sub "fn filterlist(i: &[u8])" => "fn filterlist<'a>(i: &'a [u8])"
 //@ sub "IResult<&[u8], Vec<Tag>>" => "IResult<&'a [u8], Vec<Tag>>"
 //@ ret r
-//@ tail at="many0(filter)(i)"
+//@ tail whole
     proof {
         assert(wit(den_filter()));   // instantiates many0's contract with the relation that `filter` satisfies
         lemma_many0_filter(i, viewed(verif_ret));
@@ -222,6 +297,58 @@ pub struct Unit0 { }
             Some(x) => if x.0 == input@.len() { res matches Ok(t) && tree(t) == x.1 } else { res is Err },
             None => res is Err,
         }, //# C08.parse_accepts_exactly_a_whole_input_filter_expression_and_returns_its_tree
+//@end
+
+// ---- matched-values filter (RFC 3876), used by the MatchedValues control (C19)
+//@lift name=mv_filteritems file=src/filter.rs fn=mv_filteritems
+//@ rules +R11
+//@ sub "fn mv_filteritems(i: &[u8])" => "fn mv_filteritems<'a>(i: &'a [u8])"
+//@ sub "IResult<&[u8], Vec<Tag>>" => "IResult<&'a [u8], Vec<Tag>>"
+//@ ret r
+//@ insert entry
+    proof { lemma_lits(); assert(wit(den_mv_item())); }
+//@ tail whole
+    proof { lemma_mv_items(i, viewed(verif_ret)); }
+//@ spec
+    ensures denotes_list(r, i, d_mv_items(i@)), //# C08+C19.matched_values_items_are_one_or_more_parenthesised_items_in_order
+//@end
+
+//@lift name=mv_filterlist file=src/filter.rs fn=mv_filterlist
+//@ sub "fn mv_filterlist(i: &[u8])" => "fn mv_filterlist<'a>(i: &'a [u8])"
+//@ sub "IResult<&[u8], Tag>" => "IResult<&'a [u8], Tag>"
+//@ ret r
+//@ closure at="|tagv: Vec<Tag>| -> Tag" params="tagv: Vec<Tag>" ret="(t: Tag)"
+        ensures tree(t) == t_seq(trees(tagv@, tagv@.len())) //# C08+C19.matched_values_filter_is_a_universal_sequence_of_the_items
+//@ spec
+    ensures denotes(r, i, d_mv_filterlist(i@)),
+//@end
+
+//@lift name=mv_filtexpr file=src/filter.rs fn=mv_filtexpr
+//@ rules +R11
+//@ sub "fn mv_filtexpr(i: &[u8])" => "fn mv_filtexpr<'a>(i: &'a [u8])"
+//@ sub "IResult<&[u8], Tag>" => "IResult<&'a [u8], Tag>"
+//@ ret r
+//@ insert entry
+    proof { lemma_lits(); }
+//@ tail whole
+    proof {
+        if d_mv_filtexpr(i@) is Some { assert(i@.skip(1).skip((d_mv_filterlist(i@.skip(1))->0).0).skip(1) =~= i@.skip(1 + (d_mv_filterlist(i@.skip(1))->0).0 + 1)); }
+    }
+//@ spec
+    ensures denotes(r, i, d_mv_filtexpr(i@)), //# C08+C19.matched_values_expression_denotes_rfc3876
+//@end
+
+//@lift name=parse_matched_values file=src/filter.rs fn=parse_matched_values
+//@ sub "input: impl AsRef<[u8]>" => "input: &[u8]"
+//@ sub "input.as_ref()" => "input"
+//@ sub "Result<Tag, ()>" => "core::result::Result<Tag, ()>"
+//@ ret res
+//@ spec
+    ensures
+        match d_mv_filtexpr(input@) {
+            Some(x) => if x.0 == input@.len() { res matches Ok(t) && tree(t) == x.1 } else { res is Err },
+            None => res is Err,
+        }, //# C08+C19.parse_matched_values_accepts_exactly_a_whole_input_expression_and_returns_its_tree
 //@end
 
 } // verus!
